@@ -11,6 +11,7 @@ VARIABLE l
 \* refused requests are answered with an error response that does not say which request it answers: k = 0
 IdealKs(rs) == LET id == Ideal(rs) IN [j \in DOMAIN id |-> IF rs[id[j].k].bad THEN 0 ELSE id[j].k]
 Ks(o) == [j \in DOMAIN o.resp |-> o.resp[j].k]
+\* the session is ended by the server: after the response to `Connection: close`, or after an error response
 EndsWithClose(rs) == LET id == Ideal(rs) IN rs[id[Len(id)].k].close
 \* a server may also close the connection after an error response
 ClosedAfterError(rs, o) == /\ o.resp # <<>> /\ Len(o.resp) =< Len(IdealKs(rs)) /\ Ks(o) = SubSeq(IdealKs(rs), 1, Len(o.resp))
@@ -20,7 +21,7 @@ RespOKs(o) == \A j \in DOMAIN o.resp : IF o.resp[j].k = 0 THEN o.resp[j].status 
 ExecStrict(rs, o) ==
                  /\ Ks(o) = IdealKs(rs)
                  /\ RespOKs(o)
-                 /\ IF EndsWithClose(rs) THEN o.end \in {"close-header", "server-closed", "server-reset", "write-failed"}   \* whatever follows is not read (a client still writing sees a reset)
+                 /\ IF EndsWithClose(rs) THEN o.end \in {"close-header", "error-close", "server-closed", "server-reset", "write-failed"}   \* whatever follows is not read (a client still writing sees a reset)
                     ELSE o.end = "eof" /\ ~o.unread
 ExecOK(rs, o) == (RespOKs(o) /\ ClosedAfterError(rs, o)) \/ ExecStrict(rs, o)
 IsPrefix(s, t) == Len(s) =< Len(t) /\ SubSeq(t, 1, Len(s)) = s
